@@ -4,6 +4,7 @@ import AgModel.Proofs.PoolS2NGlue
 import AgModel.Proofs.PoolS2NGlueEvents
 import AgModel.Proofs.PoolS2NGluePanic
 import AgModel.Proofs.PoolS2NGlueSoundEv
+import AgModel.Proofs.PoolS2NGlueOnce
 /-!
 # C06 — Safe-to-notar / safe-to-skip are signalled exactly when the protocol allows
 
@@ -334,6 +335,17 @@ theorem pool_s2n_event_sound (e : Epoch) (ops : List PoolOp) (s h : Nat) :
   · cases hc
   · obtain ⟨c, hm, hs, hid⟩ := certIds_mem hc
     exact ⟨pre, post, par, c, he, ha, hm, hs, hid⟩
+
+/-- **At most once, at pool level.** Among all events a run emits, no `SafeToNotar(s, h)` occurs twice for the same slot and
+    block, and no `SafeToSkip(s)` twice for the same slot (`s2nKey (.s2n s h) = some (s, h)`, `s2sKey (.s2s s) = some (s, ())`) —
+    across pruning and re-creation of slot states: events are only emitted for slots at or above the watermark, those slot
+    states are never dropped, and their `sent` / `sentS2S` records only grow. -/
+theorem pool_s2n_s2s_once (e : Epoch) (ops : List PoolOp) :
+    ((poolRun { epoch := e } ops).2.filterMap s2nKey).Nodup ∧ ((poolRun { epoch := e } ops).2.filterMap s2sKey).Nodup := by
+  have h1 := (poolRun_chan (s2nChan_closed e) ops { epoch := e } rfl (ChanInv.init e)).2
+  have h2 := (poolRun_chan (s2sChan_closed e) ops { epoch := e } rfl (ChanInv.init e)).2
+  rw [List.nil_append] at h1 h2
+  exact ⟨h1, h2⟩
 
 /-- **Pool-level completeness of safe-to-skip** (no parent involved, so no glue beyond "the pool applies slot-level
     operations"): in every reachable pool, every slot state in which the node notarized some block and
